@@ -18,6 +18,18 @@ namespace detail
 		typedef double value_type;
 	};
 
+	template <>
+	struct cast<int64_t>
+	{
+		typedef long long value_type;
+	};
+
+	template <>
+	struct cast<uint64_t>
+	{
+		typedef unsigned long long value_type;
+	};
+
 	GLM_FUNC_QUALIFIER std::string format(const char* message, ...) {
 		std::size_t const STRING_BUFFER(4096);
 
@@ -63,11 +75,11 @@ namespace detail
 	{
 		GLM_FUNC_QUALIFIER static char const * value() {return "%u";}
 	};
-#	if GLM_MODEL == GLM_MODEL_32 && GLM_COMPILER && GLM_COMPILER_VC
+
 	template<>
 	struct literal<uint64_t, false>
 	{
-		GLM_FUNC_QUALIFIER static char const * value() {return "%lld";}
+		GLM_FUNC_QUALIFIER static char const * value() {return "%llu";}
 	};
 
 	template<>
@@ -75,7 +87,6 @@ namespace detail
 	{
 		GLM_FUNC_QUALIFIER static char const * value() {return "%lld";}
 	};
-#	endif//GLM_MODEL == GLM_MODEL_32 && GLM_COMPILER && GLM_COMPILER_VC
 
 	template<typename T>
 	struct prefix{};
